@@ -971,7 +971,42 @@ def w_corrupt(failure, tier):
     return dict(found=False, note='corruption: %d single-byte alterations of the five segment files are all rejected at open with an error' % n)
 
 
+# ---------------------------------------------------------------- U28 aggregations across a cursor walk
+def w_agg_pages(failure, tier):
+    """C13: the aggregations of every page of a cursor walk equal those of the first page"""
+    skip = set((failure or {}).get('skip_cases') or [])
+    if 'aggs-after-cursor' in skip:
+        return dict(found=False, note='aggregations across pages: the only case of this generator is an open known finding (skipped)')
+    docs = [{"_id": "d%02d" % i, "body": "alpha " * (1 + i % 3) + "filler", "tag": "t%d" % (i % 3)} for i in range(9)]
+    add = {"keyword_fields": [{"name": "tag", "stored": True, "indexed": True, "fast": True}]}
+    n = 0
+    for q in ({"type": "match_all"}, "alpha"):
+        cur = None
+        first = None
+        for page in range(6):
+            r = dict(REQ_BASE, query=q, limit=3, execution="wand", aggs={"tags": {"type": "terms", "field": "tag", "size": 10}})
+            if cur:
+                r["cursor"] = cur
+            out, err = drive_search({"schema": None, "schema_add": add, "batches": [docs[:5], docs[5:]], "requests": [r]})
+            if out is None or 'ok' not in out[0]:
+                return dict(found=False, note='search driver failed: %s' % (err or str(out)[:200]))
+            ag = {b['key']: b['doc_count'] for b in ((out[0]['ok'].get('aggregations') or {}).get('tags') or {}).get('buckets', [])}
+            if first is None:
+                first = ag
+            elif ag != first:
+                return dict(found=True, cmd='%s search <<< hex(json) (one request per page)' % BIN,
+                            input='9 documents in 2 segments, query %s, limit 3, terms aggregation on tag, page %d of the cursor walk' % (_json.dumps(q), page),
+                            observed='buckets %s' % ag, expected='%s (the aggregations of the first page: they depend on query, filter and index only)' % first)
+            n += 1
+            cur = out[0]['ok'].get('next_cursor')
+            if not cur:
+                break
+    return dict(found=False, note='aggregations across pages: %d pages agree with their first page' % n)
+
+
 GENERATORS = {
+    ('U28', 'scan_segment_aggs'): w_agg_pages,
+    ('U28', 'accept_streams_all'): w_agg_pages,
     ('U25', 'compact_generation'): w_history,
     ('U25', 'commit_generation'): w_history,
     ('U8', 'verify'): w_corrupt,
